@@ -56,6 +56,8 @@ open Bpmn.Props.C12 Bpmn.Props.EngineCurrent
 #print axioms Bpmn.Props.C12Turns.nextTurn_parked_length
 #print axioms Bpmn.Props.C12Turns.nextTurn_others
 #print axioms Bpmn.Props.C12Turns.nextTurn_first
+#print axioms Bpmn.Props.C12Turns.find_other
+#print axioms Bpmn.Props.C12Turns.nextTurn_comm
 #print axioms Bpmn.Props.C12.current_activations_take_turns
 #print axioms Bpmn.Props.C12Turns.answer_payload_irrelevant
 #print axioms Bpmn.Props.C12Turns.turnsRun_any_payload
